@@ -114,9 +114,7 @@ pub fn generic<S: Src, const N: usize, const SDES: bool>(s: &mut S) {
         assert!(p.count() == h.count);
         assert!(p.length() == len);
         vcover!(known, "accepted known type");
-        if !SDES {
-            vcover!(!known, "accepted unknown type");
-        }
+        vcover!(SDES || !known, "accepted unknown type");
         forget(p);
     }
 }
